@@ -28,6 +28,18 @@ PROPS = {
         'level_note': 'Trusted: Coq kernel + vm_compute, the harness. The wire clause (bare ACK / nothing on the wire) is covered by the datagram connection model of C05.',
         'explanation': 'Theorems: IsNoResponseCode model equals the RFC 7967 class/bit decision for every code and every value (unbounded), only bits 1,3,4 matter, other classes always pass, the response writer refuses exactly per the first No-Response option. Correspondence: exhaustive bit tables for all 256 codes x values 0..63, boundary/random 32-bit values, 16-bit codes, ResponseWriter.SetResponse over generated request option lists.',
     },
+    'C17': {
+        'run_vo': 'Router/Run.vo', 'props_vo': 'Properties/C17.vo', 'level': 'partial',
+        'classes': {1: 'not-exactly-one-handler', 2: 'handler-or-pattern-not-registered', 3: 'dispatched-pattern-does-not-match',
+                    4: 'longer-matching-pattern-exists', 5: 'default-although-a-route-matches', 6: 'variables-not-the-substrings',
+                    7: 'middleware-order', 8: 'concurrent-dispatch-to-non-matching-pattern', 9: 'concurrent-dispatch-missed-stable-route',
+                    10: 'concurrent-dispatch-wrong-handler-or-variables'},
+        'trusted': [],
+        'assumptions': [],
+        'level_text': '',
+        'level_note': '',
+        'explanation': '',
+    },
 }
 
 NOT_APPLICABLE = {}
